@@ -794,6 +794,7 @@ func main() {
 			}
 		} else {
 			rawLocalDB(r)
+			sameKeyFamily(r)
 		}
 		r.Finish()
 	}
@@ -806,7 +807,97 @@ func main() {
 	if only == "" || only == "rawlocaldb" {
 		rawLocalDB(r)
 	}
+	if only == "" || only == "samekey" {
+		sameKeyFamily(r)
+	}
 	r.Floors["outcomes"] = 8
 	r.Floors["states"] = 500
 	r.Finish()
+}
+
+// sameKeyFamily: a version may write one key several times (a block's transactions overwrite each other);
+// the last write of the version is the version's value. Every assignment of a write list from
+// {none, [1], [2], [1,2], [2,1], [1,2,1], [2,1,2]} to versions 0..2 of key "a" (with the extending key
+// "a.1" written alongside in every version, so that the neighbours of the version records are not all the
+// key's own), on SimpleMVCC over the in-memory database; GetV of every version is compared with a plain
+// "last write at or below the version" model, and again after the top version was removed with DelMVCC.
+func sameKeyFamily(r *vx.Run) {
+	lists := [][]string{nil, {"1"}, {"2"}, {"1", "2"}, {"2", "1"}, {"1", "2", "1"}, {"2", "1", "2"}}
+	run := func(code int) string {
+		mem, _ := dbm.NewGoMemDB("c09s", "", 0)
+		sm := dbm.NewSimpleMVCC(dbm.NewKVDB(mem))
+		var want [3]string // value of "a" at each version ("" = never written so far)
+		cur := ""
+		var perV [3][]*types.KeyValue
+		c := code
+		for v := 0; v < 3; v++ {
+			l := lists[c%len(lists)]
+			c /= len(lists)
+			kvs := []*types.KeyValue{{Key: []byte("a.1"), Value: []byte(fmt.Sprint("n", v))}}
+			for _, x := range l {
+				kvs = append(kvs, &types.KeyValue{Key: []byte("a"), Value: []byte(x)})
+				cur = x
+			}
+			want[v] = cur
+			perV[v] = kvs
+			var prev []byte
+			if v > 0 {
+				prev = hashOf(v - 1)
+			}
+			out, err := sm.AddMVCC(kvs, hashOf(v), prev, int64(v))
+			if err != nil {
+				return fmt.Sprintf("AddMVCC(version %d): %v", v, err)
+			}
+			for _, kv := range out {
+				if kv.Value == nil {
+					mem.Delete(kv.Key)
+				} else {
+					mem.Set(kv.Key, kv.Value)
+				}
+			}
+		}
+		check := func(top int, when string) string {
+			for v := 0; v <= top; v++ {
+				got, err := sm.GetV([]byte("a"), int64(v))
+				switch {
+				case want[v] == "" && err == nil:
+					return fmt.Sprintf("%s: GetV(a,%d) = %q, never written at or below that version", when, v, got)
+				case want[v] != "" && (err != nil || string(got) != want[v]):
+					return fmt.Sprintf("%s: GetV(a,%d) = %q (%v), the last write at or below that version is %q", when, v, got, err, want[v])
+				}
+			}
+			return ""
+		}
+		if f := check(2, "after three versions"); f != "" {
+			return f
+		}
+		out, err := sm.DelMVCC(hashOf(2), 2, true)
+		if err != nil {
+			return "DelMVCC(2): " + err.Error()
+		}
+		for _, kv := range out {
+			if kv.Value == nil {
+				mem.Delete(kv.Key)
+			} else {
+				mem.Set(kv.Key, kv.Value)
+			}
+		}
+		return check(1, "after the top version was removed")
+	}
+	n := len(lists) * len(lists) * len(lists)
+	for code := 0; code < n; code++ {
+		r.Count("executions", 1)
+		r.Count("same_key_histories", 1)
+		r.Count("transitions", 4)
+		if f := run(code); f != "" {
+			code := code
+			var names []string
+			c := code
+			for v := 0; v < 3; v++ {
+				names = append(names, fmt.Sprintf("v%d:a=%v", v, lists[c%len(lists)]))
+				c /= len(lists)
+			}
+			r.Violate("samekey:"+vx.Norm(f, 40), fmt.Sprintf("%s (writes %v)", f, names), map[string]interface{}{"harness": "samekey", "code": code}, func() string { return vx.Norm(run(code), 40) })
+		}
+	}
 }
